@@ -40,6 +40,30 @@ RULES = {
 SAMPLE_EXCLUDE = {"meta"}
 
 
+def _orientation_is_float(ck: Checker, prog: Program, sr):
+    init = sr.find_method("__init__")
+    stores = [st for st in own_nodes(init.node) if isinstance(st, ast.Assign) and any(isinstance(t, ast.Attribute) and isinstance(t.value, ast.Name)
+              and t.value.id == "self" and t.attr == "degrees_from_north" for t in st.targets)]
+    if not stores:
+        raise AnalysisError(f"{init.qualname}: the orientation is not stored")
+    for st in stores:
+        v = st.value
+        if isinstance(v, ast.Name):
+            defs = [d for d in own_nodes(init.node) if isinstance(d, ast.Assign) and len(d.targets) == 1 and isinstance(d.targets[0], ast.Name) and d.targets[0].id == v.id]
+            if len(defs) == 1 and v.id not in init.params:
+                v = defs[0].value
+        is_float = (isinstance(v, ast.Call) and isinstance(v.func, ast.Name) and v.func.id == "float" and len(v.args) == 1) \
+            or (isinstance(v, ast.Constant) and isinstance(v.value, float))
+        if is_float:
+            ck.ok("C18.R2", init.qualname, "orientation stored as a built-in float", nontrivial=False)
+        elif any(isinstance(x, ast.Call) for x in ast.walk(v)):
+            raise AnalysisError(f"{init.qualname}: the type of the stored orientation `{norm_key(st, 60)}` is not decided (a call other than float(...))")
+        else:
+            ck.violation("C18.R2", init.qualname, "orientation stored as given",
+                         f"`{norm_key(st, 80)}` stores the orientation with the type the caller passed: a numpy integer scalar reaches json.dump on save() and "
+                         f"the recording cannot be written", loc=init.loc(st))
+
+
 def run(ck: Checker, prog: Program, tier: str):
     eng = engine(prog)
     ts = prog.cls("TimeSeries")
@@ -73,6 +97,9 @@ def run(ck: Checker, prog: Program, tier: str):
             else:
                 ck.ok("C18.R1a", init.qualname, "self.meta", detail="new dict")
 
+    # the orientation the constructor stores is what save() hands to the JSON encoder: a built-in float (a numpy integer scalar, as
+    # produced by np.arange of azimuths, cannot be encoded and the recording could not be saved)
+    ck.guard(_orientation_is_float, ck, prog, sr)
     # ------------------------------------------------------------------ R1b
     producers = [
         ("timeseries.TimeSeries.from_timeseries", "copy constructor"),
